@@ -10,6 +10,7 @@ import (
 	"github.com/bronlabs/bron-crypto/pkg/base/curves"
 	"github.com/bronlabs/bron-crypto/pkg/base/curves/pairable/bls12381"
 	"github.com/bronlabs/bron-crypto/pkg/base/serde"
+	"github.com/bronlabs/bron-crypto/pkg/base/utils"
 	"github.com/bronlabs/bron-crypto/pkg/base/utils/iterutils"
 	"github.com/bronlabs/bron-crypto/pkg/base/utils/sliceutils"
 	"github.com/bronlabs/bron-crypto/pkg/signatures"
@@ -383,6 +384,9 @@ func NewSignature[
 	PK curves.PairingFriendlyPoint[PK, PKFE, Sig, SigFE, E, S], PKFE algebra.FieldElement[PKFE],
 	E algebra.MultiplicativeGroupElement[E], S algebra.PrimeFieldElement[S],
 ](v Sig, pop *ProofOfPossession[Sig, SigFE, PK, PKFE, E, S]) (*Signature[Sig, SigFE, PK, PKFE, E, S], error) {
+	if utils.IsNil(v) {
+		return nil, signatures.ErrInvalidArgument.WithMessage("cannot create signature from nil point")
+	}
 	if v.IsOpIdentity() {
 		return nil, signatures.ErrInvalidArgument.WithMessage("cannot create signature from identity point")
 	}
@@ -551,6 +555,9 @@ func NewProofOfPossession[
 	PK curves.PairingFriendlyPoint[PK, PKFE, Sig, SigFE, E, S], PKFE algebra.FieldElement[PKFE],
 	E algebra.MultiplicativeGroupElement[E], S algebra.PrimeFieldElement[S],
 ](v Sig) (*ProofOfPossession[Sig, SigFE, PK, PKFE, E, S], error) {
+	if utils.IsNil(v) {
+		return nil, signatures.ErrInvalidArgument.WithMessage("cannot create proof of possession from nil signature")
+	}
 	if v.IsOpIdentity() {
 		return nil, signatures.ErrInvalidArgument.WithMessage("cannot create proof of possession from identity signature")
 	}
